@@ -106,8 +106,9 @@ unsafe impl GlobalAlloc for Tracking {
     unsafe fn dealloc(&self, ptr: *mut u8, layout: Layout) {
         match note_free(ptr as usize) {
             Freed::Plain => {
-                // Poison so that a use after free is visible.
-                unsafe { std::ptr::write_bytes(ptr, 0xDD, layout.size()) };
+                // Poison so that a use after free is visible (huge, mostly untouched
+                // blocks: only their first MiB, so that freeing them stays cheap).
+                unsafe { std::ptr::write_bytes(ptr, 0xDD, layout.size().min(1 << 20)) };
                 unsafe { System.dealloc(ptr, layout) };
             }
             Freed::Unknown => unsafe { System.dealloc(ptr, layout) },
